@@ -4,6 +4,7 @@ import Toq.Proofs.Idx
 import Toq.Proofs.Perms
 import Toq.Properties.C01
 import Toq.Proofs.Cert
+import Toq.Proofs.Rank
 import Mathlib.Tactic.Ring
 import Mathlib.Tactic.Linarith
 import Mathlib.Algebra.BigOperators.Group.Finset.Basic
@@ -290,10 +291,9 @@ namespace Toq.Entangle
 
 /-- `rankQ` only reads the entries inside the `n × m` block -/
 theorem rankQ_congr (n m : Nat) (A B : Nat → Nat → QI) (h : ∀ i j, i < n → j < m → A i j = B i j) : rankQ n m A = rankQ n m B := by
-  unfold rankQ
-  have : (Array.ofFn (n := n) fun i => Array.ofFn (n := m) fun j => A i.val j.val)
-      = (Array.ofFn (n := n) fun i => Array.ofFn (n := m) fun j => B i.val j.val) := by
-    congr 1; funext i; congr 1; funext j; exact h i.val j.val i.isLt j.isLt
+  unfold rankQ Toq.Rank.rankFn
+  have : (EMat.ofFn (n := n) (m := m) fun i j => A i.val j.val) = (EMat.ofFn (n := n) (m := m) fun i j => B i.val j.val) := by
+    congr 1; funext i j; exact h i.val j.val i.isLt j.isLt
   rw [this]
 
 end Toq.Entangle
